@@ -319,6 +319,9 @@ def run(res, tier, seed, shard, nshards):
             if ci % nshards != shard:
                 continue
             tls_case(res, W, P, servers, proxy, *c)
+        if shard == 1 % nshards:
+            scheme_case_cases(res, W, servers)
+            reuse_cases(res, W, P, servers)
         # ws:// is never wrapped
         if shard == 0:
             for route in ROUTE:
@@ -501,3 +504,90 @@ def plain_case(res, W, plain, proxy, route, sslopt):
         res.violation("ws-wrapped-in-tls", f"{case}: wrap_socket called for a ws:// URL", case, route=route)
     if rec is None or not rec["first"].startswith(b"GET "):
         res.violation("ws-first-bytes", f"{case}: first bytes {rec and rec['first']!r}", case, route=route)
+
+
+def scheme_case_cases(res, W, servers):
+    """WSS:// / Wss:// - whether such a spelling is accepted is not specified, but it must never be spoken in clear text"""
+    srv = servers["leaf-A-local"]
+    for scheme in ("WSS", "Wss", "wSS"):
+        while not srv.records.empty():
+            srv.records.get()
+        exc = None
+        try:
+            w = W.create_connection(f"{scheme}://localhost:{srv.port}/x", timeout=5, sslopt={"cert_reqs": ssl.CERT_NONE})
+            w.shutdown()
+        except ValueError as e:
+            exc = e
+        except Exception as e:  # noqa
+            exc = e
+        res.case(("scheme-case", scheme), nontrivial=True)
+        res.count("tls_cases")
+        res.count("reject_expected")
+        try:
+            rec = srv.records.get(timeout=0.5 if exc is not None else 6)
+        except queue.Empty:
+            rec = None
+        case = {"url_scheme": scheme}
+        if rec is not None and rec["first"][:1] not in (b"\x16", b""):
+            res.violation("stream-not-tls", f"{scheme}://: first bytes on the TCP stream {rec['first']!r} (clear text)", case, route="direct")
+        elif rec is not None:
+            res.count("server_records_checked")
+
+
+def reuse_cases(res, W, P, servers):
+    """the caller's sslopt dict and a WebSocket object reused for a second connection: trust configured through the
+    environment for the first connection must not survive the removal of the variable"""
+    srv = servers["leaf-A-local"]
+    for how in ("same-dict", "same-object", "same-dict-dir"):
+        for attempt in range(2):
+            H.scrub_env()
+            os.environ.pop("SSL_CERT_FILE", None)
+            while not srv.records.empty():
+                srv.records.get()
+            sslopt = {}
+            os.environ["WEBSOCKET_CLIENT_CA_BUNDLE"] = P["cadirA"] if how == "same-dict-dir" else P["caA"]
+            first = second = None
+            obj = W.WebSocket(sslopt=sslopt)
+            try:
+                if how == "same-object":
+                    obj.connect(f"wss://localhost:{srv.port}/a", timeout=5)
+                    obj.shutdown()
+                else:
+                    w = W.create_connection(f"wss://localhost:{srv.port}/a", timeout=5, sslopt=sslopt)
+                    w.shutdown()
+            except Exception as e:  # noqa
+                first = e
+            finally:
+                H.scrub_env()
+            try:
+                srv.records.get(timeout=6)
+            except queue.Empty:
+                pass
+            try:
+                if how == "same-object":
+                    obj.connect(f"wss://localhost:{srv.port}/b", timeout=5)
+                    obj.shutdown()
+                else:
+                    w = W.create_connection(f"wss://localhost:{srv.port}/b", timeout=5, sslopt=sslopt)
+                    w.shutdown()
+            except Exception as e:  # noqa
+                second = e
+            try:
+                rec = srv.records.get(timeout=6 if second is None else 1)
+            except queue.Empty:
+                rec = None
+            if isinstance(first, (TimeoutError, W.WebSocketTimeoutException)) or isinstance(second, (TimeoutError, W.WebSocketTimeoutException)):
+                continue  # wall clock; try once more
+            res.case(("sslopt-reuse", how), nontrivial=True)
+            res.count("tls_cases", 2)
+            res.count("accept_expected")
+            res.count("reject_expected")
+            case = {"scenario": "sslopt/object reused after WEBSOCKET_CLIENT_CA_BUNDLE was removed", "how": how, "sslopt_after": sorted(sslopt)}
+            if first is not None:
+                res.violation("valid-peer-rejected", f"{case}: first connection (bundle set) failed: {first!r}", case, route="direct", exc_type=type(first).__name__)
+            elif second is None:
+                res.violation("unauthenticated-peer-accepted", f"{case}: second connection succeeded although nothing trusts the server's CA any more", case, route="direct", which="chain",
+                              default_options=True)
+            elif rec is not None and rec.get("app"):
+                res.violation("application-data-before-rejection", f"{case}: {len(rec['app'])} application bytes reached the server", case, route="direct")
+            break
